@@ -15,7 +15,7 @@ int main(int argc, char** argv) {
     }
     return 0;
   }
-  typename D::M_r fsm;
+  auto fsm_p = std::make_unique<typename D::M_r>();
   std::string line;
   while (std::getline(std::cin, line)) {
     if (line.empty()) continue;
@@ -29,7 +29,9 @@ int main(int argc, char** argv) {
     H::parse_plan(is);
     H::cbn() = 0;
     try {
-      if (op == "S") fsm.start();
+      typename D::M_r& fsm = *fsm_p;
+      if (op == "RESET") { fsm_p = std::make_unique<typename D::M_r>(); }
+      else if (op == "S") fsm.start();
       else if (op == "T") fsm.stop();
       else if (op == "P") { int r = H::process(fsm, ty, pay); std::printf("R %d\n", r); }
       else if (op == "Q") H::enqueue(fsm, ty, pay);
@@ -41,7 +43,7 @@ int main(int argc, char** argv) {
     } catch (std::exception&) {
       std::printf("ESC\n");
     }
-    D::snap_r(fsm);
+    D::snap_r(*fsm_p);
     std::printf("--\n");
     std::fflush(stdout);
   }
